@@ -149,6 +149,7 @@ var (
 		PHyphenateCharacter,
 		PHyphenateLimitChars,
 		PHyphenateLimitZone,
+		PImageOrientation,
 		PImageRendering,
 		PImageResolution,
 		PLang,
